@@ -166,6 +166,10 @@ HELPERS = [
         ensures (r is Ok) == (self.acked_protocol_features & feat.bits != 0) // [C07]""")),
     ("check_state", dict(contract="""
         ensures (r is Ok) == (self.error is None)""")),
+    ("set_failed", dict(contract="""
+        ensures final(self).error == Some(error), final(self).main_sock == old(self).main_sock, final(self).backend == old(self).backend,
+            final(self).virtio_features == old(self).virtio_features, final(self).acked_virtio_features == old(self).acked_virtio_features,
+            final(self).acked_protocol_features == old(self).acked_protocol_features, final(self).reply_ack_enabled == old(self).reply_ack_enabled, // [C05:server-failed-setter,C07] the failure is recorded (check_state then refuses every request) and no negotiated state changes""")),
     ("check_request_size", dict(contract="""
         ensures (r is Ok) == (hdr.size as usize == expected && req_ok(*hdr) && size == expected) // [C05]""")),
     ("check_attached_files", dict(contract="""
